@@ -17,13 +17,14 @@ import (
 // ---- child: one store operation in its own process, bracketed by marker system calls ----
 
 type opCase struct {
-	Base  string   `json:"base"`
-	Def   uint     `json:"def"`
-	Sets  []opSet  `json:"sets"`
-	Op    string   `json:"op"`
-	User  string   `json:"user"`
-	Pw    []byte   `json:"pw"`
-	Admin bool     `json:"admin"`
+	Base   string  `json:"base"`
+	Def    uint    `json:"def"`
+	Sets   []opSet `json:"sets"`
+	Op     string  `json:"op"`
+	User   string  `json:"user"`
+	Pw     []byte  `json:"pw"`
+	Admin  bool    `json:"admin"`
+	Admin2 bool    `json:"admin2"` // c09r: replace the base directory before the operation
 }
 
 type opSet struct {
@@ -114,11 +115,11 @@ func writeCase(path string, cfg *scfg, base, op, user string, pw []byte, admin b
 // ---- parent: run the child under strace and turn the trace into abstract events ----
 
 type sysEv struct {
-	name     string
-	args     string
-	ret      string
-	tail     string // errno text, "(INJECTED)"
-	ordinal  int    // this is the ordinal-th invocation of `name` in the whole process
+	name    string
+	args    string
+	ret     string
+	tail    string // errno text, "(INJECTED)"
+	ordinal int    // this is the ordinal-th invocation of `name` in the whole process
 }
 
 // lastPre: per system call, how many invocations happened before the begin marker
